@@ -4,6 +4,7 @@
 package c17
 
 import (
+	"bytes"
 	"errors"
 	"bufio"
 	"context"
@@ -51,6 +52,10 @@ type Case struct {
 	CancelAt int      // cancel: cancel when this request index arrives
 	Late     bool     // cancel: cancel 1 ms after that request arrived instead of on arrival
 	Hang     string   // cancel: this route blocks until its context is done
+	// StallPos >= 1 (position + 1): the base CRL of that certificate's first
+	// distribution point arrives half, then the body waits - the context is
+	// cancelled at that very moment - and its Close takes 30 ms
+	StallPos int
 }
 
 func (c Case) desc() string {
@@ -62,7 +67,7 @@ func (c Case) desc() string {
 	case "panic":
 		return fmt.Sprintf("panic at=%v together=%v | %s", c.PanicAt, c.Together, c.Sc.Desc())
 	}
-	return fmt.Sprintf("cancel at=%d late=%v hang=%q | %s", c.CancelAt, c.Late, c.Hang, c.Sc.Desc())
+	return fmt.Sprintf("cancel at=%d late=%v hang=%q stall-body-of=%d | %s", c.CancelAt, c.Late, c.Hang, c.StallPos-1, c.Sc.Desc())
 }
 
 // Record is what the child reports for one case.
@@ -82,6 +87,7 @@ type Record struct {
 
 type planT struct {
 	o, c []string
+	ck   []string // kinds of the distribution-point URLs (default: all "http")
 }
 
 var plans = []planT{
@@ -99,6 +105,9 @@ var plans = []planT{
 	{o: []string{"http-500", "http-204"}, c: []string{"http-404", "lists"}},
 	{o: []string{"st-trylater", "oversize"}, c: []string{"garbage"}},
 	{o: []string{"body-err", "good-delegate"}, c: []string{"body-err", "truncated"}},
+	// the same URI in two adjacent distribution points
+	{c: []string{"clean", "clean"}, ck: []string{"http", "same"}},
+	{o: []string{"unknown-status"}, c: []string{"lists", "lists", "clean"}, ck: []string{"http", "same", "http"}},
 }
 
 func mkScenario(length int, assign []int, entry, route, cache string) sims.Scenario {
@@ -107,6 +116,9 @@ func mkScenario(length int, assign []int, entry, route, cache string) sims.Scena
 	for pos := 0; pos < length-1; pos++ {
 		p := plans[assign[pos]%len(plans)]
 		sc.Plans[pos] = sims.CertPlan{Shape: sims.HTTPShape(len(p.o), len(p.c)), OCSP: p.o, CRL: p.c}
+		for j, k := range p.ck {
+			sc.Plans[pos].Shape.CRL[j] = k
+		}
 	}
 	return sc
 }
@@ -114,7 +126,7 @@ func mkScenario(length int, assign []int, entry, route, cache string) sims.Scena
 func scenarios(rng *rand.Rand, n int) []sims.Scenario {
 	var out []sims.Scenario
 	// fixed ones first so that every run has them
-	fixed := [][]int{{0}, {2}, {1, 3}, {5, 4}, {2, 8, 0}, {3, 5, 9}, {0, 1, 2, 3}, {8, 9, 10, 5}, {6, 7, 2, 4}}
+	fixed := [][]int{{0}, {2}, {1, 3}, {5, 4}, {2, 8, 0}, {3, 5, 9}, {0, 1, 2, 3}, {8, 9, 10, 5}, {6, 7, 2, 4}, {14, 15}, {15, 14, 3}}
 	for _, a := range fixed {
 		out = append(out, mkScenario(len(a)+1, a, "validate", "http", ""))
 	}
@@ -262,6 +274,12 @@ func Cases(quick bool, seed int64) []Case {
 			out = append(out, Case{Kind: "cancel", Sc: sc, CancelAt: k})
 			out = append(out, Case{Kind: "cancel", Sc: sc, CancelAt: k, Late: true})
 		}
+		// cancellation while a CRL body is being read
+		for pos := 0; pos < sc.Len-1; pos++ {
+			if len(sc.Plans[pos].CRL) > 0 && len(sc.Plans[pos].OCSP) == 0 && sc.CRLRoute == "http" && sc.Plans[pos].Shape.CRL[0] == "http" {
+				out = append(out, Case{Kind: "cancel", Sc: sc, CancelAt: -1, StallPos: pos + 1})
+			}
+		}
 		// a responder that never answers until the context ends
 		for pos := 0; pos < sc.Len-1; pos++ {
 			if len(sc.Plans[pos].OCSP) > 0 && sc.CRLRoute == "http" {
@@ -302,6 +320,15 @@ func panicPoints(sc *sims.Scenario) []string {
 	}
 	if sc.Cache != "" && sc.Entry == "validate" {
 		out = append(out, "cache-get", "cache-set")
+	}
+	// a transport that answers and then panics while its body is read
+	for pos := 0; pos < sc.Len-1; pos++ {
+		if len(sc.Plans[pos].OCSP) > 0 {
+			out = append(out, "read:"+f.Host(pos, "o", 0))
+		}
+		if len(sc.Plans[pos].CRL) > 0 && sc.Entry != "ocsp" && sc.CRLRoute == "http" {
+			out = append(out, "read:"+f.Host(pos, "d", 0)+"/base.crl")
+		}
 	}
 	return out
 }
@@ -458,7 +485,17 @@ func afterCall(rec *Record, env *sims.Env) {
 	if env.Cache != nil {
 		inFlight = env.Cache.CallOver()
 	}
-	env.Net.CallOver()
+	closing := env.Net.CallOver()
+	if rec.Sig == "" && closing > 0 {
+		rec.Sig, rec.What = "response-body-close-in-flight", fmt.Sprintf("%d Close call(s) on response bodies were still running when the call returned", closing)
+		return
+	}
+	if rec.Sig == "" {
+		if mod := modifiedCertificates(env); mod != "" {
+			rec.Sig, rec.What = "caller-certificate-modified", "the call wrote into the caller's certificate objects: "+mod
+			return
+		}
+	}
 	if rec.Sig != "" {
 		return
 	}
@@ -469,6 +506,9 @@ func afterCall(rec *Record, env *sims.Env) {
 	defer func() {
 		// whatever still touches the caller's cache after the call returned was
 		// started by the call and left behind
+		if rec.Sig == "" && env.Net.LateCloses() > 0 {
+			rec.Sig, rec.What = "response-body-closed-after-return", fmt.Sprintf("%d Close call(s) on response bodies began after the call had returned", env.Net.LateCloses())
+		}
 		if rec.Sig == "" && env.Net.Late() > 0 {
 			rec.Sig, rec.What = "request-after-return", fmt.Sprintf("%d request(s) were sent after the call had returned", env.Net.Late())
 		}
@@ -504,6 +544,23 @@ func afterCall(rec *Record, env *sims.Env) {
 }
 
 var reportedModified int
+
+// modifiedCertificates compares the URL lists of the chain's certificate
+// objects with what their own DER says (the objects are the caller's, and
+// shared by every call on the chain).
+func modifiedCertificates(env *sims.Env) string {
+	for i, c := range env.Chain {
+		fresh, err := x509.ParseCertificate(c.Raw)
+		if err != nil {
+			continue
+		}
+		if fmt.Sprint(fresh.CRLDistributionPoints) != fmt.Sprint(c.CRLDistributionPoints) || fmt.Sprint(fresh.OCSPServer) != fmt.Sprint(c.OCSPServer) ||
+			fresh.SerialNumber.Cmp(c.SerialNumber) != 0 || !bytes.Equal(fresh.RawSubject, c.RawSubject) {
+			return fmt.Sprintf("certificate %d now says OCSP %q, CRL %q; its DER says OCSP %q, CRL %q", i, c.OCSPServer, c.CRLDistributionPoints, fresh.OCSPServer, fresh.CRLDistributionPoints)
+		}
+	}
+	return ""
+}
 
 func trunc(s string, n int) string {
 	if len(s) > n {
@@ -933,6 +990,11 @@ func execPanic(rec *Record, c Case) {
 			env.Cache.PanicOn, env.Cache.PanicVal = "get", val
 		case p == "cache-set" && env.Cache != nil:
 			env.Cache.PanicOn, env.Cache.PanicVal = "set", val
+		case strings.HasPrefix(p, "read:"):
+			v := val
+			env.Net.Handle(strings.TrimPrefix(p, "read:"), func(*netsim.Request) netsim.Reply {
+				return netsim.Reply{Class: "panic", PanicOnRead: v, Body: []byte("never read")}
+			})
 		case strings.HasPrefix(p, "fetch:") && env.Fetcher != nil:
 			env.Fetcher.Panics[strings.TrimPrefix(p, "fetch:")] = val
 		default:
@@ -1010,6 +1072,13 @@ func execCancel(rec *Record, c Case) {
 	}
 	ctx, cancel := context.WithCancel(context.Background())
 	defer cancel()
+	if c.StallPos > 0 {
+		pos := c.StallPos - 1
+		der := sc.Kit(pos).CRL("clean", 0).BaseDER
+		env.Net.Handle(sc.Family().BaseRoute(pos, 0, "http"), func(*netsim.Request) netsim.Reply {
+			return netsim.Reply{Class: "stall", Body: der, StallAt: len(der) / 2, OnStall: cancel, SlowClose: 30 * time.Millisecond}
+		})
+	}
 	var fetchN atomic.Int64
 	trigger := func(n int) {
 		if n != c.CancelAt {
